@@ -33,6 +33,9 @@ def _colsums(K: Arr):
     return [dag.addn([K[i, j] for i in range(dim)]) for j in range(K.shape[1])]
 
 
+QKM = "eko.evolution_operator.quad_ker"
+
+
 def run(chk):
     src, pe, M = kern.setup(chk)
     log = []
@@ -145,8 +148,53 @@ def run(chk):
                 ok, info = False, {"error": f"returned {out!r}"}
             chk.decide(ok, "sv-shift-conserves-sum-rule", fq.qname, f"gamma_variation_qed breaks the sum rule (order=({n},{m}),running={running})",
                        where=fq.where, instance=f"order=({n},{m}),running={running}", data={"witness": info}, how="PE + PIT F_p")
+    # ---- how the integrand puts the two conserving factors together (expanded scheme) ------------------------------------------------
+    # each factor conserves on its own (decided above); their MATRIX product does too, an element-wise product does not: the kernel the
+    # integrand hands on must be the matrix product of the scale-variation factor and the evolution kernel (either order conserves)
+    from .. import qk
+
+    n_asm = 0
+    for label, qed_, dim, svq, kq, modes in (
+            ("QCD singlet", False, 2, "eko.scale_variations.expanded.singlet_variation", "eko.kernels.singlet.dispatcher", (100, 21)),
+            ("QED singlet", True, 4, "eko.scale_variations.expanded.singlet_variation_qed", "eko.kernels.singlet_qed.dispatcher", (21, 22, 100, 101)),
+            ("QED valence", True, 2, "eko.scale_variations.expanded.valence_variation_qed", "eko.kernels.valence_qed.dispatcher", (10200, 10204))):
+        _src, peq = qk.make_pe()
+        Mq, SVq = qk.enums(peq)
+        SVm = Arr.from_nested([[dag.sym(f"sv{r}{c}") for c in range(dim)] for r in range(dim)])
+        Km = Arr.from_nested([[dag.sym(f"k{r}{c}") for c in range(dim)] for r in range(dim)])
+        peq.overrides[svq] = lambda p_, a, k, SVm=SVm: SVm.copy()
+        peq.overrides[kq] = lambda p_, a, k, Km=Km: Km.copy()
+        got = {}
+        try:
+            for m0 in modes:
+                for m1 in modes:
+                    if qed_:
+                        got[(m0, m1)] = qk.qed(peq, (2, 1), m0, m1, Mq["ITERATE_EXACT"], nf=4, Lsv=L, sv_mode=SVq["expanded"], is_threshold=False)
+                    else:
+                        got[(m0, m1)] = qk.qcd(peq, (2, 0), m0, m1, Mq["ITERATE_EXACT"], nf=4, Lsv=L, sv_mode=SVq["expanded"], is_threshold=False)
+        except Exception as e:  # noqa: BLE001 - reported as a violation with the reason
+            chk.fail("assembled-kernel-is-a-matrix-product", f"{QKM}.quad_ker_{'qed' if qed_ else 'qcd'}", f"{label}: the integrand kernel cannot be "
+                     f"extracted with stand-in factors: {type(e).__name__} {e}", instance=label)
+            continue
+        n_asm += 1
+        n_inst += 1
+        # index of a mode in the sector's basis: the order the repository's own selection uses (g, photon, S, Sdelta / S, g / V, Vdelta)
+        order_ = {"QCD singlet": (100, 21), "QED singlet": (21, 22, 100, 101), "QED valence": (10200, 10204)}[label]
+        ok = False
+        for first, second in ((SVm, Km), (Km, SVm)):
+            prod = kern.mat_mul(first, second)
+            diffs = [dag.sub(dag.tonode(got[(m0, m1)]), dag.tonode(prod[order_.index(m0), order_.index(m1)])) for m0 in modes for m1 in modes]
+            ok, info = dag.is_zero_fp(diffs, chk.seed, 2)
+            if ok:
+                break
+        fqk = src.func(f"{QKM}.quad_ker_{'qed' if qed_ else 'qcd'}")
+        chk.decide(ok, "assembled-kernel-is-a-matrix-product", fqk.qname,
+                   f"{label}, expanded scale variation: the kernel handed to the integration is not the matrix product of the scale-variation "
+                   f"factor and the evolution kernel (e.g. an element-wise product): two factors that each conserve the sum rules then give a "
+                   f"kernel that does not", where=fqk.where, instance=label, data={"witness": info}, how="PE with stand-in factors + PIT F_p")
+    chk.floor("assembled kernels", n_asm, 3)
     # ---- matching operators -----------------------------------------------------------------------
-    QK = "eko.evolution_operator.quad_ker"
+    QK = QKM
     MM = pe.enum_members(pe.get_global(QK, "MatchingMethods").cls)
     fb = src.func(f"{QK}.build_ome")
     for n in range(0, 4):
